@@ -67,6 +67,8 @@ def run(ctx):
             base.append(job(D, "lin", mode, 1, mfe, seeds[0], opts={"stobads": True}))
     # uncertainty_handling given explicitly as False with a noisy target: the start-point test still decides
     base += [job(D, "lin", "auto", nfs, ninit[("auto", D)] + 9, seeds[0], opts={"uncertainty_handling": v}) for D in (1, 2) for nfs in (1, 3) for v in (False, 0)]
+    # very small (but valid) reported SDs: ysd_vec holds exactly what the target reported
+    base += [dict(job(D, g, "spec", nfs, ninit[("spec", D)] + 12, seeds[0]), sd_scale=sc) for D in (1, 2) for g in ("lin", "log") for nfs in (1, 3) for sc in (1e-9, 1e-12, 1e3)]
     st = explore(base, ["noise"], 0, sink, name="budget-window/b0")
     # (b) noise scripts <= b on medium runs: a LOW outlier makes an early iterate look best (swap to an earlier iterate)
     med = [job(D, g, m, nfs, 62 + 8 * D, s, target=t) for D in ((1,) if q else (1, 2)) for g in ("lin", "log") for m in ("auto", "decl", "spec")
